@@ -23,7 +23,7 @@ theorem valid_note_iff (n : Note) :
 
 /-- the pedal stream is exactly the controls number 64, thresholded `value > thr` … -/
 theorem pedal_stream_perm (cs : List Control) (thr : Int) :
-    (pedalStream cs thr).Perm ((cs.filter (fun c => c.number = 64)).map (fun c => (c.time, decide (thr < c.value)))) :=
+    (pedalStream cs thr).Perm ((cs.filter (fun c => c.number = sustainCC)).map (fun c => (c.time, decide (thr < c.value)))) :=
   perm_sortBy _ _
 
 /-- … in time order … -/
@@ -34,7 +34,7 @@ theorem pedal_stream_sorted (cs : List Control) (thr : Int) :
 /-- … simultaneous events in the order of the control stream -/
 theorem pedal_stream_stable (cs : List Control) (thr : Int) (t : Rat) :
     (pedalStream cs thr).filter (fun e => decide (e.1 = t))
-      = ((cs.filter (fun c => c.number = 64)).map (fun c => (c.time, decide (thr < c.value)))).filter
+      = ((cs.filter (fun c => c.number = sustainCC)).map (fun c => (c.time, decide (thr < c.value)))).filter
           (fun e => decide (e.1 = t)) :=
   stable_sortBy _ t _
 
@@ -101,13 +101,13 @@ example : soundOffAt [⟨60, 0, 1, 64, 0, 1, none⟩, ⟨61, 1/2, 1/2, 0, 3, 9, 
 
 /-- no pedal events: every note ends at its release -/
 theorem eq_release_no_pedal (ns : List Note) (cs : List Control) (thr : Int) (i : Nat) (n : Note)
-    (hn : ns[i]? = some n) (hno : ∀ c ∈ cs, c.number ≠ 64) : soundOffAt ns cs thr i = some n.off := by
+    (hn : ns[i]? = some n) (hno : ∀ c ∈ cs, c.number ≠ sustainCC) : soundOffAt ns cs thr i = some n.off := by
   rw [soundOffAt_eq, hn]
   simp [soundOffSpec, pedalStream_nil_of_no_pedal cs thr hno, downBefore]
 
 /-- no pedal value above the threshold (in particular threshold 127 with MIDI values 0..127) -/
 theorem eq_release_thr_max (ns : List Note) (cs : List Control) (thr : Int) (i : Nat) (n : Note)
-    (hn : ns[i]? = some n) (hmax : ∀ c ∈ cs, c.number = 64 → c.value ≤ thr) :
+    (hn : ns[i]? = some n) (hmax : ∀ c ∈ cs, c.number = sustainCC → c.value ≤ thr) :
     soundOffAt ns cs thr i = some n.off := by
   rw [soundOffAt_eq, hn]
   have : downBefore n.off (pedalStream cs thr) = false := by
